@@ -246,3 +246,25 @@ def self_test(ctx, trace_path):
             ok = False
             ctx.infra("binding self-test: %s trace was accepted" % name)
     return ok
+
+
+DEPLOY_KEY = "Deploy:redeploy-destroyed-contract:fee-charged-but-gas-consumed-reported-0"
+
+
+def deploy_destroyed_probe(ctx, binary):
+    """A deploy transaction (gas price > 0) for the address of a destroyed contract fails AFTER its fee was charged and
+    committed; the failure path does not report the fee in GasConsumed.  One real scenario in real blocks."""
+    fout = os.path.join(ctx.scratch, "txexec-deploy-destroyed.ndjson")
+    rc, out = ctx.run_bin(binary, "TestVerifDeployDestroyed", env={"VERIF_OUT": fout}, timeout=600)
+    if rc != 0 or not os.path.exists(fout):
+        ctx.infra("deploy-destroyed probe failed rc=%s" % rc)
+        return
+    r = vf.read_ndjson(fout)[0]
+    if not (r["deploy1_state"] == 1 and r["destroy_state"] == 1 and r["destroyed"]):
+        ctx.infra("deploy-destroyed probe: could not set the scenario up: %s" % r)
+        return
+    paid = int(r["payer_paid"])
+    if r["redeploy_state"] == 0 and (paid != r["redeploy_gas_consumed"] or int(r["gov_received"]) != paid):
+        ctx.violation(DEPLOY_KEY, r, {"test": "TestVerifDeployDestroyed", "result": r})
+    else:
+        ctx.log("deploy-destroyed probe: consistent (%s)" % r)
